@@ -28,18 +28,18 @@ type VSpec struct {
 	N string   `json:"n,omitempty"` // pool name (for reports only)
 }
 
-func vNil() VSpec             { return VSpec{T: "nil"} }
-func vErr() VSpec             { return VSpec{T: "err", S: "boom"} }
-func vText(s string) VSpec    { return VSpec{T: "text", S: s} }
-func vNum(s string) VSpec     { return VSpec{T: "num", S: s} }
-func vBool(b bool) VSpec      { return VSpec{T: "bool", B: b} }
-func vArr(i ...VSpec) VSpec   { return VSpec{T: "arr", I: append([]VSpec{}, i...)} }
-func vJSON(s string) VSpec    { return VSpec{T: "json", S: s} }
-func vFn(s string) VSpec      { return VSpec{T: "fn", S: s} }
-func vAnon(s string) VSpec    { return VSpec{T: "anon", S: s} }
-func vDT(s string) VSpec      { return VSpec{T: "dt", S: s} }
-func vDate(s string) VSpec    { return VSpec{T: "date", S: s} }
-func vTime(s string) VSpec    { return VSpec{T: "time", S: s} }
+func vNil() VSpec                   { return VSpec{T: "nil"} }
+func vErr() VSpec                   { return VSpec{T: "err", S: "boom"} }
+func vText(s string) VSpec          { return VSpec{T: "text", S: s} }
+func vNum(s string) VSpec           { return VSpec{T: "num", S: s} }
+func vBool(b bool) VSpec            { return VSpec{T: "bool", B: b} }
+func vArr(i ...VSpec) VSpec         { return VSpec{T: "arr", I: append([]VSpec{}, i...)} }
+func vJSON(s string) VSpec          { return VSpec{T: "json", S: s} }
+func vFn(s string) VSpec            { return VSpec{T: "fn", S: s} }
+func vAnon(s string) VSpec          { return VSpec{T: "anon", S: s} }
+func vDT(s string) VSpec            { return VSpec{T: "dt", S: s} }
+func vDate(s string) VSpec          { return VSpec{T: "date", S: s} }
+func vTime(s string) VSpec          { return VSpec{T: "time", S: s} }
 func named(n string, v VSpec) VSpec { v.N = n; return v }
 func vObj(kv ...any) VSpec {
 	o := VSpec{T: "obj"}
@@ -216,7 +216,7 @@ func tupleShape(args []VSpec) string {
 // arrays/objects, JSON from webhooks)")
 
 var longText = strings.Repeat("lorem ipsum dolor sit amet ", 380) // ~10 kB
-var longDigits = strings.Repeat("1234567890", 1000)                // 10 kB of digits
+var longDigits = strings.Repeat("1234567890", 1000)               // 10 kB of digits
 var multiByte = "héllo wörld 😀 日本語 مرحبا  x"
 
 const webhookJSON = `{"status": 200, "headers": {"Content-Type": "application/json"}, "json": {"results": [{"id": 1, "name": "A", "tags": ["x", "y"], "score": 0.75}, {"id": 2, "name": null, "tags": [], "score": -1e3}], "count": 2, "ok": true, "next": null, "big": 12345678901234567890, "nested": {"a": {"b": {"c": [1, [2, [3]]]}}}}}`
